@@ -283,6 +283,7 @@ ASSUMPTIONS = [
     "the placement catalogue is hand-written (vf/props/c07.py); expected outcome counted from the placement exactly as the statement words it (any slice or element counts)",
     "accepted designs: static driver analysis per scalar sub-element on the elaborated VHDL + dynamic driver monitor over 40 clocks incl. a reset pulse",
     "an unexpected rejection of an accept-case is counted, not flagged",
+    "contexts are built with the std wrappers and, in the raw:* placements, directly with cohdl.sequential_context / cohdl.concurrent_context (no implicit default write of pushed targets)",
 ]
 
 
